@@ -215,6 +215,32 @@ def s_first(I, w, frame, site, fn, args, term):
     return out
 
 
+def s_slice_contains(I, w, frame, site, fn, args, term):
+    # `TABLE.contains(&x)` on a constant table of at most 8 integers: one world per entry x may equal, one where it equals none
+    s, r = args[0], args[1]
+    if s[0] != 'slice' or r[0] != 'ref' or s[2] != Lin.c(0) or s[1].path:
+        return None
+    try:
+        tv = I.read(w, s[1])
+        x = I.read(w, r[1])
+    except AI.AnalysisError:
+        return None
+    if tv[0] != 'arr' or tv[2][0] != 'elems' or not (1 <= tv[1] <= 8) or s[3] != Lin.c(tv[1]) or x[0] != 'int':
+        return None
+    if not all(e[0] == 'int' and e[1].is_const() for e in tv[2][1]):
+        return None
+    vals = sorted({e[1].const for e in tv[2][1]})
+    out = []
+    for v_ in vals:
+        wk = w.fork()
+        if I.assume(wk, ('cmp', 'eq', x[1], Lin.c(v_)), True):
+            out.append((wk, TRUE))
+    wn = w.fork()
+    if all(I.assume(wn, ('cmp', 'eq', x[1], Lin.c(v_)), False) for v_ in vals):
+        out.append((wn, FALSE))
+    return out
+
+
 def s_slice_is_empty(I, w, frame, site, fn, args, term):
     s = args[0]
     if s[0] != 'slice':
@@ -327,6 +353,33 @@ def s_skip(I, w, frame, site, fn, args, term):
     w2 = w.fork()
     if I.assume(w2, ('cmp', 'lt', it[3], it[2] + n[1]), True):
         out.append((w2, ('iter', it[1], it[3], it[3])))
+    return out
+
+
+def s_enumerate(I, w, frame, site, fn, args, term):
+    it = args[0]
+    if it[0] != 'iter' or len(it) != 4:
+        return None
+    return [(w, ('agg', (it, ('int', Lin.c(0)))))]
+
+
+def s_enumerate_next(I, w, frame, site, fn, args, term):
+    # Enumerate over a slice iterator: (count, &element), count advancing with the iterator
+    r = args[0]
+    if r[0] != 'ref':
+        return None
+    z = I.read(w, r[1])
+    if z[0] != 'agg' or len(z[1]) != 2 or z[1][0][0] != 'iter' or z[1][1][0] != 'int':
+        return None
+    it, n = z[1]
+    out = []
+    w1 = w.fork()
+    if I.assume(w1, ('cmp', 'le', it[3], it[2]), True):
+        out.append((w1, ('enum', ((0, ()),))))
+    w2 = w.fork()
+    if I.assume(w2, ('cmp', 'lt', it[2], it[3]), True):
+        I.write(w2, r[1], ('agg', (('iter', it[1], it[2] + 1, it[3]), ('int', n[1] + 1))))
+        out.append((w2, ('enum', ((1, (('agg', (('int', n[1]), ('ref', it[1].ext(('i', it[2]))))),)),))))
     return out
 
 
@@ -953,6 +1006,7 @@ TABLE = {
     'core::slice::last': s_last,
     'core::slice::first': s_first,
     'core::slice::is_empty': s_slice_is_empty,
+    'core::slice::contains': s_slice_contains,
     'core::slice::split_at': s_split_at,
     'core::slice::split_at_mut': s_split_at,
     'core::slice::split_first': s_split_first,
@@ -969,6 +1023,8 @@ TABLE = {
     '<std::slice::Iter as std::iter::Iterator>::fold': s_fold,
     'std::iter::Iterator::skip': s_skip,
     'std::iter::Iterator::zip': s_zip,
+    'std::iter::Iterator::enumerate': s_enumerate,
+    '<std::iter::Enumerate as std::iter::Iterator>::next': s_enumerate_next,
     '<std::iter::Zip as std::iter::Iterator>::next': s_zip_next,
     'core::num::from_be_bytes': s_from_be_bytes,
     'core::num::to_be_bytes': s_to_be_bytes,
